@@ -30,6 +30,7 @@ import (
 	"strconv"
 	"strings"
 	"sync"
+	"sync/atomic"
 
 	"github.com/ohler55/slip"
 	"verif/harness/lib"
@@ -53,6 +54,8 @@ type c10World struct {
 	argOf     map[int]c10Arg
 	log       []string
 	gensym    int
+	conc      map[slip.Object][]string // concurrent facet: per-call logs keyed by the first argument object
+	concMu    sync.Mutex
 }
 
 var c10W *c10World
@@ -84,11 +87,12 @@ func (f *c10Prim) Call(s *slip.Scope, args slip.List, depth int) slip.Object {
 	if 0 < len(args) {
 		id, _ = c10Fixnum(args[0])
 	}
+	var ev string
 	switch f.kind {
 	case "tr":
-		w.log = append(w.log, fmt.Sprintf("m%d", id))
+		ev = fmt.Sprintf("m%d", id)
 	case "lv":
-		w.log = append(w.log, fmt.Sprintf("l%d", id))
+		ev = fmt.Sprintf("l%d", id)
 	case "en":
 		flag := ""
 		if 1 < len(args) {
@@ -99,8 +103,17 @@ func (f *c10Prim) Call(s *slip.Scope, args slip.List, depth int) slip.Object {
 				flag = "+"
 			}
 		}
-		w.log = append(w.log, fmt.Sprintf("e%d%s", id, flag))
+		ev = fmt.Sprintf("e%d%s", id, flag)
 	}
+	if w.conc != nil {
+		// concurrent facet: the event belongs to the call whose first argument is this object
+		w.concMu.Lock()
+		key := args[len(args)-1]
+		w.conc[key] = append(w.conc[key], ev)
+		w.concMu.Unlock()
+		return nil
+	}
+	w.log = append(w.log, ev)
 	return nil
 }
 
@@ -376,14 +389,14 @@ func (w *c10World) form(g string, n int, op c10Op) string {
 		var body string
 		switch {
 		case op.qual != 'r':
-			body = fmt.Sprintf("(c10-tr %d) %d", op.id, op.id)
+			body = fmt.Sprintf("(c10-tr %d x) %d", op.id, op.id)
 		case op.mode == 'g':
-			body = fmt.Sprintf("(let ((np (next-method-p))) (c10-en %d np) (let ((v (if np (call-next-method %s) %d))) (c10-lv %d) v))",
+			body = fmt.Sprintf("(let ((np (next-method-p))) (c10-en %d np x) (let ((v (if np (call-next-method %s) %d))) (c10-lv %d x) v))",
 				op.id, args, op.id, op.id)
 		case op.mode == 'd':
-			body = fmt.Sprintf("(c10-en %d 0) (let ((v (call-next-method %s))) (c10-lv %d) v)", op.id, args, op.id)
+			body = fmt.Sprintf("(c10-en %d 0 x) (let ((v (call-next-method %s))) (c10-lv %d x) v)", op.id, args, op.id)
 		default:
-			body = fmt.Sprintf("(let ((np (next-method-p))) (c10-en %d np) (c10-lv %d) %d)", op.id, op.id, op.id)
+			body = fmt.Sprintf("(let ((np (next-method-p))) (c10-en %d np x) (c10-lv %d x) %d)", op.id, op.id, op.id)
 		}
 		q := c10QualName[op.qual]
 		if q != "" {
@@ -693,9 +706,11 @@ type c10Alphabet struct {
 	syms []c10Sym
 }
 
-func c10D(q byte, mode byte, key ...string) c10Sym { return c10Sym{kind: 'd', qual: q, key: key, mode: mode} }
-func c10R(q byte, key ...string) c10Sym            { return c10Sym{kind: 'r', qual: q, key: key} }
-func c10C(key ...string) c10Sym                    { return c10Sym{kind: 'c', key: key} }
+func c10D(q byte, mode byte, key ...string) c10Sym {
+	return c10Sym{kind: 'd', qual: q, key: key, mode: mode}
+}
+func c10R(q byte, key ...string) c10Sym { return c10Sym{kind: 'r', qual: q, key: key} }
+func c10C(key ...string) c10Sym         { return c10Sym{kind: 'c', key: key} }
 
 func c10Alphabets() []c10Alphabet {
 	return []c10Alphabet{
@@ -901,6 +916,10 @@ func c10Worker() {
 	sc.Buffer(make([]byte, 1<<20), 1<<26)
 	out := bufio.NewWriterSize(os.Stdout, 1<<20)
 	for sc.Scan() {
+		if strings.HasPrefix(sc.Text(), "conc ") {
+			fmt.Fprintln(out, w.runConc(sc.Text()))
+			continue
+		}
 		h, ok := c10Parse(sc.Text())
 		if !ok {
 			fmt.Fprintln(out, "bad-request worker-parse")
@@ -921,9 +940,17 @@ func c10Pipe(cmd *exec.Cmd, lines []string) ([]string, error) {
 	cmd.Stdin = &in
 	var out bytes.Buffer
 	cmd.Stdout = &out
-	cmd.Stderr = os.Stderr
+	var errb bytes.Buffer
+	cmd.Stderr = &errb
 	if err := cmd.Run(); err != nil {
-		return nil, err
+		msg := errb.String()
+		if 600 < len(msg) {
+			msg = msg[:600]
+		}
+		return nil, fmt.Errorf("%v: %s", err, strings.TrimSpace(msg))
+	}
+	if 0 < errb.Len() {
+		_, _ = os.Stderr.Write(errb.Bytes())
 	}
 	var res []string
 	sc := bufio.NewScanner(&out)
@@ -982,6 +1009,255 @@ func c10RunChunk(c *lib.Ctx, lines []string) []c10Mismatch {
 		}
 	}
 	return out
+}
+
+// ---------------------------------------------------------------------------------------------
+// concurrent facet (thorough tier): calls from several goroutines while another goroutine defines
+// methods. Every call must produce the outcome the specification assigns under the method table
+// after i of the definitions, for some i between the number of definitions completed before the
+// call started and the number started before it returned. Definitions only add methods under
+// fresh specializer tuples (what the property's schedules clause names: calls and defmethod), the
+// arguments are instances so that each event is attributed to its call by argument identity.
+//
+//   conc <n> <callsPerCaller> <caller;caller…> <defmethod-op>*        caller = class.class
+//   reply: ok <caller>|<lo>|<hi>|<outcome> …
+
+func (w *c10World) runConc(line string) string {
+	words := strings.Fields(line)
+	if len(words) < 5 || words[0] != "conc" {
+		return "bad-request conc"
+	}
+	n, _ := strconv.Atoi(words[1])
+	callsPer, _ := strconv.Atoi(words[2])
+	var callers [][]int
+	for _, cw := range strings.Split(words[3], ";") {
+		k, ok := c10Ints(cw)
+		if !ok || len(k) != n {
+			return "bad-request conc-caller"
+		}
+		callers = append(callers, k)
+	}
+	h, ok := c10Parse("disp run " + words[1] + " 0 0:0 " + strings.Join(words[4:], " "))
+	if !ok {
+		return "bad-request conc-ops"
+	}
+	w.gensym++
+	g := fmt.Sprintf("c10k%d", w.gensym)
+	if o := lib.EvalString(w.scope, fmt.Sprintf("(defgeneric %s (%s))", g, strings.Join([]string{"x", "y", "z"}[:n], " "))); !o.Ok {
+		return "ok Xdefgeneric:" + o.Class
+	}
+	var mutForms []slip.Object
+	for _, op := range h.ops {
+		code := slip.ReadString(w.form(g, n, op), w.scope)
+		mutForms = append(mutForms, code[0])
+	}
+	type callerState struct {
+		scope *slip.Scope
+		form  slip.Object
+		key   slip.Object
+		recs  []string
+	}
+	states := make([]*callerState, len(callers))
+	for ci, classes := range callers {
+		st := &callerState{scope: slip.NewScope()}
+		var names []string
+		for j, c := range classes {
+			o := lib.EvalString(w.scope, fmt.Sprintf("(make-instance '%s)", w.className[c]))
+			if !o.Ok {
+				return "bad-request conc-instance"
+			}
+			name := fmt.Sprintf("q%d", j)
+			st.scope.Let(slip.Symbol(name), o.Value)
+			names = append(names, name)
+			if j == 0 {
+				st.key = o.Value
+			}
+		}
+		st.form = slip.ReadString(fmt.Sprintf("(%s %s)", g, strings.Join(names, " ")), st.scope)[0]
+		states[ci] = st
+	}
+	w.conc = map[slip.Object][]string{}
+	var started, completed, callCount atomic.Int64
+	total := int64(len(callers) * callsPer)
+	begin := make(chan struct{})
+	var wg sync.WaitGroup
+	mutErr := ""
+	wg.Add(1)
+	go func() {
+		defer wg.Done()
+		<-begin
+		mscope := slip.NewScope()
+		for i, f := range mutForms {
+			// pace the definitions over the callers' lifetime
+			target := int64(i+1) * total / int64(len(mutForms)+1)
+			for callCount.Load() < target {
+				runtime.Gosched()
+			}
+			started.Add(1)
+			f := f
+			if o := lib.Protect(func() slip.Object { return mscope.Eval(f, 0) }); !o.Ok {
+				mutErr = fmt.Sprintf("X%d:%s", i, o.Class)
+			}
+			completed.Add(1)
+		}
+	}()
+	for ci, st := range states {
+		wg.Add(1)
+		go func(ci int, st *callerState) {
+			defer wg.Done()
+			<-begin
+			for j := 0; j < callsPer; j++ {
+				w.concMu.Lock()
+				delete(w.conc, st.key)
+				w.concMu.Unlock()
+				lo := completed.Load()
+				o := lib.Protect(func() slip.Object { return st.scope.Eval(st.form, 0) })
+				hi := started.Load()
+				callCount.Add(1)
+				w.concMu.Lock()
+				evs := append([]string{}, w.conc[st.key]...)
+				w.concMu.Unlock()
+				tr := "-"
+				if 0 < len(evs) {
+					tr = strings.Join(evs, ",")
+				}
+				switch {
+				case o.Ok && o.Value == nil:
+					tr += "=nil"
+				case o.Ok:
+					if v, isFix := c10Fixnum(o.Value); isFix {
+						tr += "=" + strconv.FormatInt(v, 10)
+					} else {
+						tr += "=?" + strings.ReplaceAll(o.Text, " ", "_")
+					}
+				case o.Class == "no-applicable-method-error":
+					tr += "!na"
+				default:
+					tr += "!" + o.Class
+				}
+				st.recs = append(st.recs, fmt.Sprintf("%d|%d|%d|%s", ci, lo, hi, tr))
+			}
+		}(ci, st)
+	}
+	close(begin)
+	wg.Wait()
+	w.conc = nil
+	slip.CurrentPackage.Undefine(g)
+	out := []string{"ok"}
+	if mutErr != "" {
+		out = append(out, mutErr)
+	}
+	for _, st := range states {
+		out = append(out, st.recs...)
+	}
+	return strings.Join(out, " ")
+}
+
+// c10ConcScenario draws one scenario line.
+func (w *c10World) concScenario(r *lib.Rng) string {
+	n := 1 + r.Intn(2)
+	specs := []int{w.classID["c10a"], w.classID["c10b"], w.classID["c10c"], w.classID["c10d"], w.classID["standard-object"], 0}
+	insts := []int{w.classID["c10a"], w.classID["c10b"], w.classID["c10c"], w.classID["c10d"], w.classID["c10d"]}
+	var callers []string
+	for i, k := 0, 2+r.Intn(4); i < k; i++ {
+		t := make([]int, n)
+		for j := range t {
+			t[j] = insts[r.Intn(len(insts))]
+		}
+		callers = append(callers, c10Join(t))
+	}
+	used := map[string]bool{}
+	var ops []string
+	id := 200
+	for i, k := 0, 3+r.Intn(8); i < k; i++ {
+		t := make([]int, n)
+		for j := range t {
+			t[j] = specs[r.Intn(len(specs))]
+		}
+		if used[c10Join(t)] {
+			continue // only fresh specializer tuples
+		}
+		used[c10Join(t)] = true
+		id++
+		op := c10Op{kind: 'd', qual: "pbarrp"[r.Intn(6)], key: t, id: id, mode: 's'}
+		if op.qual == 'r' {
+			op.mode = "ggds"[r.Intn(4)]
+		}
+		ops = append(ops, op.word())
+	}
+	return fmt.Sprintf("conc %d %d %s %s", n, 20+r.Intn(40), strings.Join(callers, ";"), strings.Join(ops, " "))
+}
+
+// c10ConcCheck verifies the reply of a scenario against the model; returns a description of the
+// first call that matches no admissible table, or "".
+func (w *c10World) concCheck(c *lib.Ctx, line, reply string) (bad string, calls int) {
+	words := strings.Fields(line)
+	n := words[1]
+	ops := words[4:]
+	expected := map[string][]string{} // caller tuple -> outcome after i definitions
+	var callers []string
+	var mlines []string
+	for _, cw := range strings.Split(words[3], ";") {
+		callers = append(callers, cw)
+		if _, done := expected[cw]; done {
+			continue
+		}
+		expected[cw] = nil
+		classes, _ := c10Ints(cw)
+		used := map[int]bool{}
+		var tbl []string
+		for _, cl := range classes {
+			if !used[cl] {
+				used[cl] = true
+				tbl = append(tbl, fmt.Sprintf("%d:%s", cl, c10Join(w.cpl[cl])))
+			}
+		}
+		sort.Strings(tbl)
+		l := fmt.Sprintf("disp run %s 0 %s c:%s", n, strings.Join(tbl, ";"), cw)
+		for _, op := range ops {
+			l += " " + op + " c:" + cw
+		}
+		mlines = append(mlines, l)
+	}
+	replies := c.Model(mlines)
+	for i, l := range mlines {
+		h, _ := c10Parse(l)
+		cw := strings.TrimPrefix(strings.Fields(l)[5], "c:")
+		expected[cw] = strings.Fields(c10Canon(h, replies[i]))[1:]
+	}
+	for _, rec := range strings.Fields(reply)[1:] {
+		if strings.HasPrefix(rec, "X") {
+			return "a defmethod failed: " + rec, calls
+		}
+		parts := strings.SplitN(rec, "|", 4)
+		if len(parts) != 4 {
+			return "malformed record " + rec, calls
+		}
+		calls++
+		ci, _ := strconv.Atoi(parts[0])
+		lo, _ := strconv.Atoi(parts[1])
+		hi, _ := strconv.Atoi(parts[2])
+		exp := expected[callers[ci]]
+		okc := false
+		for i := lo; i <= hi && i < len(exp); i++ {
+			if exp[i] == parts[3] {
+				okc = true
+			}
+		}
+		if !okc {
+			if len(exp) <= hi {
+				hi = len(exp) - 1
+			}
+			return fmt.Sprintf("caller %s observed %s; admissible (after %d..%d definitions): %v", callers[ci], parts[3], lo, hi, exp[lo:hi+1]), calls
+		}
+	}
+	return "", calls
+}
+
+func c10RunConcLines(c *lib.Ctx, lines []string) ([]string, error) {
+	cmd := exec.Command(os.Args[0], "C10", "--root", c.Root)
+	cmd.Env = append(os.Environ(), "VH_C10_WORKER=conc")
+	return c10Pipe(cmd, lines)
 }
 
 // ---------------------------------------------------------------------------------------------
@@ -1110,6 +1386,51 @@ func c10Replay(c *lib.Ctx, w *c10World) {
 	var rec map[string]any
 	if err := lib.ReadJSON(c.Replay, &rec); err != nil {
 		fmt.Println("cannot read replay file:", err)
+		return
+	}
+	if batch, _ := rec["scenarios"].([]any); 0 < len(batch) {
+		var lines []string
+		for _, b := range batch {
+			if l, ok := b.(string); ok {
+				lines = append(lines, l)
+			}
+		}
+		crashes := 0
+		for i := 0; i < 10; i++ {
+			if _, err := c10RunConcLines(c, lines); err != nil {
+				crashes++
+			}
+		}
+		fmt.Printf("replay of the concurrent batch: the process terminated in %d of 10 runs\n", crashes)
+		if 0 < crashes {
+			c.Report("replay", false, map[string]any{"scenarios": batch})
+		}
+		return
+	}
+	if scen, _ := rec["scenario"].(string); scen != "" {
+		lines := make([]string, 50)
+		for i := range lines {
+			lines[i] = scen
+		}
+		replies, err := c10RunConcLines(c, lines)
+		if err != nil {
+			fmt.Println("replay: the concurrent worker terminated:", err)
+			c.Report("replay", false, map[string]any{"scenario": scen})
+			return
+		}
+		fails := 0
+		for i := range lines {
+			if bad, _ := w.concCheck(c, scen, replies[i]); bad != "" {
+				if fails == 0 {
+					fmt.Printf("replay %s\n  %s\n", scen, bad)
+				}
+				fails++
+			}
+		}
+		fmt.Printf("replay of the concurrent scenario: %d of %d runs had a call matching no admissible table\n", fails, len(lines))
+		if 0 < fails {
+			c.Report("replay", false, map[string]any{"scenario": scen})
+		}
 		return
 	}
 	line, _ := rec["history"].(string)
@@ -1242,6 +1563,15 @@ func runC10(c *lib.Ctx) {
 		fams = append(fams, f)
 	}
 
+	if only := os.Getenv("VH_C10_ONLY"); only != "" { // development aid: restrict to matching families
+		var keep []c10Family
+		for _, f := range fams {
+			if strings.Contains(f.name, only) {
+				keep = append(keep, f)
+			}
+		}
+		fams = keep
+	}
 	// --- run, sharded
 	type job struct {
 		fam   int
@@ -1307,6 +1637,56 @@ func runC10(c *lib.Ctx) {
 			}
 		}
 		c.Ev.Coverage["model_run_vs_spec_sampled"] = len(ra)
+	}
+	if only := os.Getenv("VH_C10_ONLY"); c.Thorough() && (only == "" || only == "conc") {
+		var lines []string
+		for i := 0; i < 400; i++ {
+			lines = append(lines, w.concScenario(c.Rng))
+		}
+		// batches of 50 scenarios per process: a Go fatal error inside the interpreter ends only that batch
+		var replies []string
+		var err error
+		concCalls := 0
+		for i := 0; i < len(lines) && err == nil; i += 50 {
+			var rs []string
+			if rs, err = c10RunConcLines(c, lines[i:i+50]); err != nil {
+				c.Report("facet=concurrent aspect=worker-crash", false, map[string]any{"scenarios": lines[i : i+50],
+					"observed": "the process running concurrent calls and defmethods terminated: " + err.Error(),
+					"expected": "every call returns",
+					"note":     "schedule dependent: --replay re-runs the batch 10 times"})
+			}
+			replies = append(replies, rs...)
+		}
+		if err == nil {
+			for i, l := range lines {
+				bad, n := w.concCheck(c, l, replies[i])
+				concCalls += n
+				if bad != "" {
+					c.Report("facet=concurrent aspect=not-linearizable", false, map[string]any{"scenario": l, "observed": bad,
+						"expected": "each call's outcome equals the specification on the table before or after each concurrently running defmethod",
+						"note":     "schedule dependent: --replay re-runs the scenario 50 times"})
+					break
+				}
+			}
+		}
+		if err == nil && 0 < len(lines) {
+			overlapping := 0
+			for _, r := range replies {
+				for _, rec := range strings.Fields(r)[1:] {
+					if parts := strings.SplitN(rec, "|", 4); len(parts) == 4 && parts[1] != parts[2] {
+						overlapping++
+					}
+				}
+			}
+			c.Ev.Coverage["concurrent_calls_overlapping_a_defmethod"] = overlapping
+			rw := strings.Fields(replies[0])
+			if 6 < len(rw) {
+				rw = rw[:6]
+			}
+			c.Ev.Sample(map[string]any{"family": "concurrent", "scenario": lines[0], "first_records(caller|lo|hi|outcome)": rw})
+		}
+		c.Ev.Coverage["concurrent_scenarios"] = len(lines)
+		c.Ev.Coverage["concurrent_calls_checked"] = concCalls
 	}
 	for _, f := range fams {
 		if 0 < len(f.lines) {
